@@ -71,7 +71,9 @@ Spec == Init /\ [][Next]_vars
 AuthKinds == {"dns", "dnsUpper", "ipv4", "ipv6"}
 SniKinds == {"absent", "same", "other"}
 OriginCerts == {"valid", "expired", "wrongname", "untrusted"}
-MCases == { c \in [auth : AuthKinds, port : {443, 8443}, sni : SniKinds, origin : OriginCerts, excluded : BOOLEAN, xfp : {"absent", "https", "http"}] :
+MCases == { c \in [auth : AuthKinds, port : {443, 8443}, sni : SniKinds, origin : OriginCerts, excluded : BOOLEAN, xfp : {"absent", "https", "http"},
+                     form : {"origin", "absHttps", "absHttp"}] :       \* request-target of the inner request: origin-form or an absolute URL
+             /\ (c.form # "origin" => ~c.excluded /\ c.xfp = "absent" /\ c.sni # "other" /\ c.port = 443)
              /\ (c.auth \in {"ipv4", "ipv6"} => c.sni = "absent")        \* clients send no SNI for IP literals
              /\ (c.excluded => c.sni # "other" /\ c.xfp = "absent" /\ c.auth # "dnsUpper")
              /\ (c.sni = "other" => c.origin = "valid" /\ c.xfp = "absent") }
